@@ -596,6 +596,7 @@ static int driverMain(Check &c, int argc, char **argv)
         g_trace = NULL; g_curRun = NULL;
         for(size_t i = 0; i < t1.size() && i < t2.size(); ++i)
             if(t1[i] != t2[i]) { printf("first difference before op %zu (%s); previous op %s\n", i, i < plan.ops.size() ? c.opName(plan.ops[i].kind) : "end", i ? c.opName(plan.ops[i - 1].kind) : "-"); return 1; }
+        if(getenv("VERIF_TRACE_DUMP")) for(size_t i = 0; i < t1.size(); ++i) printf("mark %zu %llu %s\n", i, (unsigned long long)t1[i], i < plan.ops.size() ? opToString(plan.ops[i], NULL).c_str() : "end");
         printf("identical (%zu marks)\n", t1.size());
         return 0;
     }
@@ -612,6 +613,7 @@ static int driverMain(Check &c, int argc, char **argv)
         g_trace = NULL; g_curRun = NULL;
         for(size_t i = 0; i < t1.size() && i < t2.size(); ++i)
             if(t1[i] != t2[i]) { printf("first difference before op %zu (%s); previous op %zu %s\n", i, i < plan.ops.size() ? c.opName(plan.ops[i].kind) : "end", i - 1, i ? opToString(plan.ops[i - 1], NULL).c_str() : "-"); return 1; }
+        if(getenv("VERIF_TRACE_DUMP")) for(size_t i = 0; i < t1.size(); ++i) printf("mark %zu %llu %s\n", i, (unsigned long long)t1[i], i < plan.ops.size() ? opToString(plan.ops[i], NULL).c_str() : "end");
         printf("identical (%zu marks)\n", t1.size());
         return 0;
     }
@@ -638,6 +640,8 @@ static int driverMain(Check &c, int argc, char **argv)
     std::vector<WorkerSlot> ws((size_t)nWorkers);
     std::map<std::string, uint64_t> counters; std::set<uint64_t> states; double simSec = 0;
     uint64_t runsDone = 0, runsViol = 0, mismatches = 0;
+    FILE *dumpF = getenv("VERIF_DUMP_HASHES") ? fopen(getenv("VERIF_DUMP_HASHES"), "w") : NULL;   // per-run log hashes, for chasing a worker-count dependence
+    uint64_t batchHash = 0;  // order-independent digest of (run index, event-log hash) over all clean runs: equal across worker counts and repetitions
     std::map<std::string, ClassInfo> classes;
     std::vector<std::pair<uint64_t, Violation> > pending; // violations to process
     bool harnessError = false;
@@ -668,7 +672,7 @@ static int driverMain(Check &c, int argc, char **argv)
         switch(ln[0])
         {
         case 'R': s.curIdx = (int64_t)strtoull(ln.c_str() + 2, NULL, 10); s.curDone = false; break;
-        case 'D': s.curDone = true; ++runsDone; break;
+        case 'D': { s.curDone = true; ++runsDone; char *e2; uint64_t di = strtoull(ln.c_str() + 2, &e2, 10); uint64_t dh = strtoull(e2, NULL, 10); batchHash += mix64(di, dh); if(dumpF) fprintf(dumpF, "%llu %llu\n", (unsigned long long)di, (unsigned long long)dh); break; }
         case 'M': ++mismatches; printf("NONDETERMINISM: run index %s re-executed in-process gave a different event log\n", ln.c_str() + 2); break;
         case 'V':
         {
@@ -851,7 +855,7 @@ static int driverMain(Check &c, int argc, char **argv)
         js << "  \"runs_per_hour\": " << (uint64_t)(tExplore > 0 ? runsDone * 3600.0 / tExplore : 0) << ",\n";
         js << "  \"seeds_per_hour\": " << (uint64_t)(tExplore > 0 ? runsDone * 3600.0 / tExplore : 0) << ",\n";
         js << "  \"simulated_seconds\": " << simSec << ",\n";
-        js << "  \"workers\": " << nWorkers << ",\n";
+        js << "  \"workers\": " << nWorkers << ",\n  \"batch_log_hash\": \"" << batchHash << "\",\n";
         js << "  \"determinism_rechecks_equal\": " << rechecks << ",\n  \"determinism_mismatches\": " << mismatches << ",\n";
         js << "  \"faults_fired\": {";
         { bool f = true; for(std::map<std::string, uint64_t>::iterator it = faults.begin(); it != faults.end(); ++it) { js << (f ? "" : ", ") << "\"" << it->first << "\": " << it->second; f = false; } }
@@ -875,6 +879,7 @@ static int driverMain(Check &c, int argc, char **argv)
         js << "],\n \"wall_s\": " << wall << ",\n \"violations\": " << nviol << ",\n \"known_findings_hit\": " << nknown << "\n}\n";
         mkdir((g_root + "/evidence").c_str(), 0755);
         writeFile(g_root + "/evidence/" + c.id() + ".json", js.str());
+        if(thorough) writeFile(g_root + "/evidence/" + c.id() + ".thorough.json", js.str());   // kept next to the per-change quick evidence
         printf("%s %s: runs=%llu ops=%llu distinct_states=%zu sim_s=%.1f wall=%.1fs violations=%zu known=%zu%s\n", c.id(), thorough ? "thorough" : "quick",
                (unsigned long long)runsDone, (unsigned long long)ops, states.size(), simSec, wall, nviol, nknown, zero.empty() ? "" : " (some probes at zero, see evidence)");
         if(thorough && !zero.empty()) { printf("NOTE: probes stuck at zero:"); for(size_t i = 0; i < zero.size(); ++i) printf(" %s", zero[i].c_str()); printf("\n"); }
